@@ -227,12 +227,27 @@ def run(ck, tier, rng):
             if valid:
                 oracle(ck, written, r, meta, rec)
         concrete_before = len(ck.violations) + len(ck.known_hits)
+        hyp = {"wf": 0, "wf_and_no_default_clash": 0, "valid_stream_not_wf": 0}
+        covered = {"theorem_hypotheses_met": 0}
         diffs = 0
         first = None
         if ck.build.ok:
             model_out = run_model("C01", cases)
             for (g, written, members, form, valid), line, r in zip(items, model_out, impl_out):
-                d = compare(oc.parse_rt(line), r, pay)
+                pm = oc.parse_rt(line)
+                if pm[0] == "ok":
+                    # the decidable hypotheses of the theorems, evaluated by the model on this input
+                    if pm[4][0]:
+                        hyp["wf"] += 1
+                        if pm[4][1]:
+                            hyp["wf_and_no_default_clash"] += 1
+                    if valid and not pm[4][0]:
+                        hyp["valid_stream_not_wf"] += 1
+                        if len(ck.notes) < 8:
+                            ck.notes.append("generator's well-formed package does not meet wfb: %s" % (g if isinstance(g, str) else [n for n, _ in written]))
+                    if pm[4][0] and pm[4][1] and r[0] == "ok":
+                        covered["theorem_hypotheses_met"] += 1
+                d = compare(pm, r, pay)
                 if d:
                     diffs += 1
                     if first is None:
@@ -251,7 +266,8 @@ def run(ck, tier, rng):
     return ck.finish(
         rule="%d generated packages (4 of 5 well-formed: cycles, shared targets, several rels to one part, external links, ../ ./ and root-absolute targets, directory depth 0-5, Default/Override mixes with case-flipped extensions and part names, parts sharing an extension but not a type, binary and XML payloads; 1 of 5 carrying one malformation for model fidelity only) delivered as stream / zip path / directory, plus %d corpus decks; non-trivial = well-formed package with at least 2 reachable parts, or a corpus deck" % (n_pk, len(decks)),
         trusted_base=TB, assumptions=ASSUME,
-        extra={"correspondence_diffs": diffs, "exhaustive": False, "unmodelled": meta.get("unmodelled", [])},
+        extra={"correspondence_diffs": diffs, "exhaustive": False, "unmodelled": meta.get("unmodelled", []),
+               "theorem_hypotheses_on_inputs": dict(hyp, **covered)},
     )
 
 
